@@ -66,6 +66,9 @@ type restartJob struct {
 
 func main() {
 	c := hx.Start("C03", "Run.Check_C03", 120)
+	// hx.NewRand(seed) has state seed*C+k, and every draw adds C: the streams of seeds 1, 2, 3 are the
+	// same stream shifted by one draw and re-synchronise. Re-seed from a mixed output instead.
+	c.Rng = hx.NewRand(c.Rng.U64() ^ 0x5bd1e995c3a7f1d3)
 	var rp struct {
 		History updsim.History
 		Crash   int // -1: no restart
